@@ -957,57 +957,16 @@ def q7(run: Run, prog: Program, cy: CyProgram):
     body = loop.a[2]
     arrays = {n for n, (t, _, _) in kf.locals.items() if t.kind == "buffer"}
     scalars = {n for n, (t, _, _) in kf.locals.items() if t.kind == "simple"}
-    written_arrays = set()
-    for n in walk(body):
-        if isinstance(n, X) and n.k in ("assign", "aug"):
-            tg = n.a[0] if n.k == "assign" else [n.a[1]]
-            for t in tg:
-                if t.k == "index" and t.a[0].k == "name":
-                    written_arrays.add(t.a[0].a[0])
-                elif t.k == "name" and t.a[0] in arrays:
-                    written_arrays.add(t.a[0])
-        if isinstance(n, X) and n.k == "call" and n.a[0].k == "attr" and \
-                n.a[0].a[1] == "fill" and n.a[0].a[0].k == "name":
-            written_arrays.add(n.a[0].a[0].a[0])
-    written_arrays &= arrays
-    # the accumulator: whole-array `acc += ...`, returned
     rets = [s for s in kf.body if s.k == "return"]
     acc = pp(rets[0].a[0]) if rets and rets[0].a[0] is not None else None
-    inited = set()
-    nsize = "N"
-    for st in body:
-        # full re-initialisation forms
-        if st.k == "expr" and st.a[0].k == "call" and st.a[0].a[0].k == "attr" \
-                and st.a[0].a[0].a[1] == "fill" and st.a[0].a[0].a[0].k == "name":
-            inited.add(st.a[0].a[0].a[0].a[0])
-            continue
-        if st.k == "for" and st.a[1].k == "call" and pp(st.a[1].a[0]) == "range" \
-                and [pp(a) for a in st.a[1].a[1]] == [nsize] and st.a[0].k == "name":
-            lv = st.a[0].a[0]
-            sub = st.a[2]
-            if all(s.k == "assign" and all(
-                    t.k == "index" and t.a[0].k == "name" and len(t.a[1]) == 1
-                    and pp(t.a[1][0]) == lv for t in s.a[0]) for s in sub):
-                used = set()
-                for s in sub:
-                    used |= names_in(s.a[1]) & written_arrays
-                stale = used - inited
-                for a in stale:
-                    _q7_fail(run, kf, a, st)
-                for s in sub:
-                    for t in s.a[0]:
-                        inited.add(t.a[0].a[0])
-                continue
-        used = names_in(st) & written_arrays
-        for a in sorted(used - inited):
-            if a == acc and st.k == "aug" and st.a[0] == "+" and pp(st.a[1]) == acc \
-                    and acc not in names_in(st.a[2]):
-                continue
-            _q7_fail(run, kf, a, st)
-            inited.add(a)
+    from .loopir import stale_work_arrays
+    written_arrays, problems = stale_work_arrays(body, arrays, accumulator=acc)
+    for a, st in problems:
+        _q7_fail(run, kf, a, st)
     for a in sorted(written_arrays):
-        run.oblige("Q7", f"{kf.name}:{a}", True, sample={
-            "array": a, "role": "accumulator" if a == acc else "re-initialised"})
+        if a not in {p[0] for p in problems}:
+            run.oblige("Q7", f"{kf.name}:{a}", True, sample={
+                "array": a, "role": "accumulator" if a == acc else "re-initialised"})
     # scalars: first use inside the iteration must be a write
     assigned_first = _scalar_first_use(body, scalars, names_in(loop.a[0]))
     for v, (ok2, line) in sorted(assigned_first.items()):
